@@ -1,5 +1,5 @@
 """C09 — minimum path/walk covers cover everything with fewest routes; width equals it."""
-from contracts import c13, stubs
+from contracts import c13, c09, stubs
 
 LEVEL = "other"
 TRUSTED = [stubs.A_SOLVER]
@@ -9,7 +9,7 @@ EXPLANATION = ("Proved (PyVC, unbounded): the search loops of MinPathCover/MinPa
 
 
 def units(tier):
-    return [u for u in c13.u_min_loops() if "C09" in u.props]
+    return [u for u in c13.u_min_loops() if "C09" in u.props] + c09.all_units()
 
 
 def bounded(tier, seed):
